@@ -409,6 +409,16 @@ sp!(s0, q0, "sp", "a", tracing::Level::INFO);
 sp!(s1, q1, "other", "b", tracing::Level::TRACE);
 sp!(s2, q2, "sp2", "b", tracing::Level::ERROR);
 
+/// the span callsites 6..8 once more with an explicit `parent: None` (root spans: their ancestors
+/// are not the spans entered below them on the thread's stack)
+pub fn open_root(i: usize) -> tracing::Span {
+    match i {
+        6 => tracing::span!(target: "a", parent: None, tracing::Level::INFO, "sp", f = tracing::field::Empty),
+        7 => tracing::span!(target: "b", parent: None, tracing::Level::TRACE, "other", f = tracing::field::Empty),
+        _ => tracing::span!(target: "b", parent: None, tracing::Level::ERROR, "sp2", f = tracing::field::Empty),
+    }
+}
+
 pub fn callsites() -> Vec<Cs> {
     let m = |name, level, target, is_span| Meta { name, level, target, is_span };
     vec![
